@@ -99,7 +99,7 @@ type Fault struct {
 	Status     int    `json:"status,omitempty"`      // KindStatus
 	RetryAfter int    `json:"retry_after,omitempty"` // seconds, sent with 429/503 when >0
 	NErr       int    `json:"nerr,omitempty"`        // KindSuccessFalse: number of entries in "errors"
-	Variant    int    `json:"variant,omitempty"`     // KindBadJSON: 0 truncated real body, 1 HTML, 2 empty, 3 JSON array
+	Variant    int    `json:"variant,omitempty"`     // KindBadJSON: 0 truncated real body, 1 HTML, 2 empty, 3 JSON array, 4 real body without "success", 5 {}
 	// Apply: a PATCH that meets the fault is applied to the store before the
 	// failure is returned (the response was lost, not the request).
 	Apply bool `json:"apply,omitempty"`
@@ -435,6 +435,15 @@ func (s *Server) RoundTrip(req *http.Request) (*http.Response, error) {
 			b = []byte("<html><body><h1>502 Bad Gateway</h1></body></html>")
 		case 2:
 			b = nil
+		case 4:
+			// well-formed JSON, the real answer without its "success" member
+			var m map[string]json.RawMessage
+			if json.Unmarshal(real, &m) == nil {
+				delete(m, "success")
+				b, _ = json.Marshal(m)
+			}
+		case 5:
+			b = []byte(`{}`)
 		default:
 			b = []byte(`["success", true]`)
 		}
